@@ -522,19 +522,22 @@ class Goebner:
             factor1, factor2 = factors
 
             # keep common factors in the middle, move uncommon ones to the left if possible
-            for both in common:
-                if linear1[both] * factor1 != linear2[both] * factor2:
+            # (a term that only one of the two relations has counts as coefficient 0 in the other)
+            for both in list(linear1.keys()) + [key for key in linear2.keys() if key not in linear1]:
+                coeff1 = linear1.get(both, 0)
+                coeff2 = linear2.get(both, 0)
+                if coeff1 * factor1 != coeff2 * factor2:
                     if both.free_symbols.intersection(self._sym2agg.keys()):
                         return None  # nocoverage
                     relations[first] = (
-                        relations[first][0] - (both * linear1[both]),
+                        relations[first][0] - (both * coeff1),
                         relations[first][1],
-                        relations[first][2] - (both * linear1[both]),
+                        relations[first][2] - (both * coeff1),
                     )
                     relations[second] = (
-                        relations[second][0] - (both * linear2[both]),
+                        relations[second][0] - (both * coeff2),
                         relations[second][1],
-                        relations[second][2] - (both * linear2[both]),
+                        relations[second][2] - (both * coeff2),
                     )
 
             lhs = relations[first][0] * factor1
